@@ -418,49 +418,35 @@ func propC19(c *Ctx) {
 // decodedFromH: StringToBytes(h.ac, X).0 -> X
 func decodedFromH(t *Term) *Term { return decodedFrom(t) }
 
-// dupOfCovered: element i of list was skipped on p because a map probe keyed by the whole element
-// (or by both its port and its channel) answered "present", and every key ever put into that map
-// on the path has the same shape over an element whose registration is covered - so an element
-// with the same (port, channel) was registered earlier on this path.
+// dupOfCovered: element i of list was skipped on p because it EQUALS an element whose
+// registration is covered: a true equality fact between a key over the whole element i (the
+// element itself, or a value built from both its port and its channel) and the same-shaped key
+// over a covered element j (the probes of a scratch map are enumerated as such equalities).
 func dupOfCovered(p *Path, list string, i int, covered []bool) bool {
 	el := fmt.Sprintf("%s[%d]", list, i)
-	shape := func(k *Term, idx int) string {
-		return strings.ReplaceAll(k.Key(), fmt.Sprintf("%s[%d]", list, idx), list+"[#]")
+	shape := func(k string, idx int) string {
+		return strings.ReplaceAll(k, fmt.Sprintf("%s[%d]", list, idx), list+"[#]")
 	}
-	ok := false
-	p.HasFact(len(p.Events), func(a *Term, pol bool) bool {
-		if ok || !pol || a.Op != "extract" || a.Name != "1" || a.Args[0].Op != "lookup" {
+	whole := func(k, el string) bool {
+		return k == el || (strings.Contains(k, el+".PortID") && strings.Contains(k, el+".ChannelID"))
+	}
+	return p.HasFact(len(p.Events), func(a *Term, pol bool) bool {
+		if !pol || a.Op != "bin" || a.Name != "==" {
 			return false
 		}
-		lk := a.Args[0]
-		k := lk.Args[1]
-		ks := k.Key()
-		whole := ks == el || (strings.Contains(ks, el+".PortID") && strings.Contains(ks, el+".ChannelID"))
-		if !whole || strings.Contains(shape(k, i), list+"[") && strings.Contains(strings.ReplaceAll(shape(k, i), list+"[#]", ""), list+"[") {
+		x, y := a.Args[0].Key(), a.Args[1].Key()
+		if whole(y, el) {
+			x, y = y, x
+		}
+		if !whole(x, el) {
 			return false
 		}
-		puts := 0
-		for _, ev := range p.Events {
-			if ev.Kind != EvMapUpdate || ev.Place == nil || ev.Place.Key() != lk.Args[0].Key() {
-				continue
+		for j := range covered {
+			ej := fmt.Sprintf("%s[%d]", list, j)
+			if j != i && covered[j] && whole(y, ej) && shape(y, j) == shape(x, i) {
+				return true
 			}
-			good := false
-			for j := 0; j < len(covered); j++ {
-				if j != i && covered[j] && shape(ev.Cond, j) == shape(k, i) {
-					good = true
-				}
-			}
-			// the skipped element's own insertion (after its probe) does not matter
-			if !good && shape(ev.Cond, i) == shape(k, i) && ev.Cond.Key() == ks {
-				continue
-			}
-			if !good {
-				return false
-			}
-			puts++
 		}
-		ok = puts > 0
 		return false
 	})
-	return ok
 }
